@@ -6,13 +6,21 @@ import Driver.Util
 /-! Suite C15: LDRO decision of the airtime calculator and of every radio driver, and the bit the
 driver programs.  `<model>|<spec>`: model = generated `BaseBandModulationParams::new` resp.
 `Model.PhyArith.createModParams` + `ldroByte` decoded with the datasheet position of the flag;
-spec = the symbol-time rule `Spec.Airtime.ldro` for pairs the chip supports, `ERR` otherwise. -/
+spec = the symbol-time rule on the PHYSICAL bandwidth of the setting (`Spec.Airtime.ldroPhys`, the
+specification's own table — not the code's `hz()` constants) for pairs the chip supports, `ERR` otherwise. -/
 open Gen.Modulation
 open Spec.Semtech (Chip)
 namespace Driver.C15
 
 def sfOf? (n : Int) : Option SpreadingFactor := SpreadingFactor.all.find? (fun s => s.factor == n)
-def bwOf? (n : Int) : Option Bandwidth := Bandwidth.all.find? (fun b => b.hz == n)
+def bwOf? (n : Int) : Option Bandwidth :=
+  -- op lines name a bandwidth by the datasheet's figure in Hz (the C13 harness's own table, legacy replays)
+  -- or by the crate's current `hz()`
+  match n with
+  | 7810 => some ._7KHz | 10420 => some ._10KHz | 15630 => some ._15KHz | 20830 => some ._20KHz
+  | 31250 => some ._31KHz | 41670 => some ._41KHz | 62500 => some ._62KHz | 125000 => some ._125KHz
+  | 250000 => some ._250KHz | 500000 => some ._500KHz
+  | _ => Bandwidth.all.find? (fun b => b.hz == n)
 def crOf? (n : Int) : Option CodingRate := CodingRate.all.find? (fun c => c.denom == n)
 def chipOf? (s : String) : Option Chip := Chip.all.find? (fun c => c.name == s)
 
@@ -26,7 +34,7 @@ def handleBase (ws : List String) : String :=
       let m := match BaseBandModulationParams.new sf bw ._4_5 with
         | some p => b01 p.ldro
         | none => "PANIC"
-      s!"{m}|{b01 (Spec.Airtime.ldro sf.factor bw.hz)}"
+      s!"{m}|{b01 (Spec.Airtime.ldroPhys sf.factor (Model.PhyArith.specBw bw))}"
     | _, _ => "bad-op"
   | ["ldro", chip, sf, bw, cr, rf, prior] =>
     match chipOf? chip, parseInt? sf >>= sfOf?, parseInt? bw >>= bwOf?, parseInt? cr >>= crOf?, parseInt? rf, parseInt? prior with
@@ -37,8 +45,8 @@ def handleBase (ws : List String) : String :=
           s!"{f},{Spec.Semtech.ldroBit c byte}"
         | .err => "ERR"
         | .panic => "PANIC"
-      let s := if Spec.Semtech.supports c sf.factor bw.hz rf then
-          let x := b01 (Spec.Semtech.ldro sf.factor bw.hz)
+      let s := if Spec.Semtech.supports c sf.factor (Model.PhyArith.specBw bw) rf then
+          let x := b01 (Spec.Semtech.ldro sf.factor (Model.PhyArith.specBw bw))
           s!"{x},{x}"
         else "ERR"
       s!"{m}|{s}"
